@@ -345,6 +345,14 @@ def witness_search(tier, seed):
         sf = SMSimfile.blank()
         if Assets(song, simfile=sf).banner is not None or Assets(song, simfile=sf).music is not None:
             return dict(input="directory without matching entries", detail="answer is not None")
+        # the documented pattern for music is "has an audio extension": also a name that is nothing but the extension,
+        # a name with several dots, and a near miss that only contains the extension
+        for only, expect in ((".ogg", ".ogg"), (".MP3", ".MP3"), ("01. intro.v2.WAV", "01. intro.v2.WAV"), ("song.ogg.txt", None), ("ogg", None)):
+            open(os.path.join(song, only), "w").write("x")
+            got = Assets(song, simfile=SMSimfile.blank()).music
+            os.remove(os.path.join(song, only))
+            if (os.path.basename(got) if got else None) != expect:
+                return dict(input=dict(directory=[only, "Sub/"], music_property=""), detail=f"music is {got!r}; the documented pattern (an entry with an audio extension) gives {expect!r}")
         # several kinds asked of ONE Assets object, in every order: the file a simfile names wins whatever was asked before
         os.makedirs(os.path.join(song, "Art"))
         for nme in ("Art/cover.png", "old banner.png", "some bg.png", "a.ogg"):
